@@ -185,7 +185,7 @@ def _c05_replay(case):
 
 
 PROFILES["C05"] = Profile(
-    "C05", _c05_run_seed, _c05_replay, quick_runs=6000, quick_budget=120, thorough_budget=600,
+    "C05", _c05_run_seed, _c05_replay, quick_runs=9000, quick_budget=120, thorough_budget=600,
     rule=("one evaluation = one seeded run: 6-14 node tensors (rank 1-4, axis sizes 2-4, every index-type pattern, "
           "integer and complex-integer entries, epsilon/delta nodes, second node objects sharing an array) and a "
           "model-guided program of 6-32 builder/evaluation/cache steps (new with constructor edges, add_node, add_edge "
@@ -258,7 +258,7 @@ def _c06_replay(case):
 
 
 PROFILES["C06"] = Profile(
-    "C06", _c06_run_seed, _c06_replay, quick_runs=4000, quick_budget=120, thorough_budget=600,
+    "C06", _c06_run_seed, _c06_replay, quick_runs=10000, quick_budget=120, thorough_budget=600,
     rule=("one evaluation = one seeded history in dimension 1, 2 or 3: a pool of invertible transformations (integer "
           "matrices with |det| in 1..6, translations, rotations, scalings, a TransformationCollection of length 1, 2, 3, "
           "64 or 65) and of objects of every transformable kind (points, lines, planes, quadrics incl. dual, segments, "
